@@ -207,7 +207,7 @@ theorem tok_jAlloc {cfg : Cfg} {s : St} {j : Nat} (c : Content) (level : Nat) (h
       · obtain ⟨x1, x2, x3, x4, x4', x5, x6, x7, x8⟩ := hb
         have hfb' : ∀ v, s.nextFile ∉ (s.ver v).nos := fun v hm => by have := hfb v _ hm; omega
         generalize s.job k = b at *
-        obtain ⟨kind, pc, payload, snap, inputs, trivial, todoIn, out, edit, csnap, newVer, prev, prevZero, dlist, live, todoDel⟩ := b
+        obtain ⟨kind, pc, payload, snap, inputs, trivial, todoIn, out, edit, csnap, newVer, prev, prevZero, nfRead, dlist, live, todoDel⟩ := b
         simp only at hpc hkind; subst hpc hkind
         constructor <;>
           simp only [allocFile, started, preSwap, outHidden, mergedRange, editRange, outNo] at * <;> grind
@@ -224,7 +224,7 @@ theorem tok_jAlloc {cfg : Cfg} {s : St} {j : Nat} (c : Content) (level : Nat) (h
         obtain ⟨x1, x2, x3, x4, x4', x5, x6, x7, x8⟩ := hb
         have hfb' : ∀ v, s.nextFile ∉ (s.ver v).nos := fun v hm => by have := hfb v _ hm; omega
         generalize s.job k = b at *
-        obtain ⟨kind, pc, payload, snap, inputs, trivial, todoIn, out, edit, csnap, newVer, prev, prevZero, dlist, live, todoDel⟩ := b
+        obtain ⟨kind, pc, payload, snap, inputs, trivial, todoIn, out, edit, csnap, newVer, prev, prevZero, nfRead, dlist, live, todoDel⟩ := b
         simp only at hpc hcomp; subst hpc hcomp
         constructor <;>
           simp only [allocFile, started, preSwap, outHidden, mergedRange, editRange, outNo] at * <;> grind
@@ -369,24 +369,24 @@ theorem tok_jSnap {cfg : Cfg} {s : St} {j : Nat} (hs : Safe s) (ht : TokInv cfg 
     constructor
     case inputsIn =>
       intro a b
-      simp only [jSnap, St.setJob, buildVersion, snapAcquire]
+      simp only [jSnap, St.setJob, buildVersionAt, snapAcquire]
       rw [hne _ hcurne]; exact x2 a b
     case hidden =>
       intro hp f hf v
-      simp only [jSnap, St.setJob, buildVersion, snapAcquire]
+      simp only [jSnap, St.setJob, buildVersionAt, snapAcquire]
       by_cases hv : v = s.nextVer
       · subst hv; rw [upd_same]; exact hbhid k hk hkj hp f hf
       · rw [hne _ hv]; exact x7 hp f hf v
     case hidden' => intro hp; exact absurd hp hnotS
-    all_goals (first | assumption | (simp only [jSnap, St.setJob, buildVersion, snapAcquire] at *; assumption))
+    all_goals (first | assumption | (simp only [jSnap, St.setJob, buildVersionAt, snapAcquire] at *; assumption))
   constructor
   · intro v
-    simp only [jSnap, St.setJob, buildVersion, snapAcquire]
+    simp only [jSnap, St.setJob, buildVersionAt, snapAcquire]
     by_cases hv : v = s.nextVer
     · subst hv; rw [upd_same]; exact hbnd
     · rw [hne _ hv]; exact t1 v
   · intro k hk
-    have hk' : k < s.nJob := by simpa [jSnap, St.setJob, buildVersion, snapAcquire] using hk
+    have hk' : k < s.nJob := by simpa [jSnap, St.setJob, buildVersionAt, snapAcquire] using hk
     by_cases hkj : k = j
     · subst hkj
       have hjob : (jSnap s k).job k = { s.job k with csnap := s.nSnap, newVer := s.nextVer, prev := s.cur, pc := .cSnapped } := by
@@ -397,34 +397,35 @@ theorem tok_jSnap {cfg : Cfg} {s : St} {j : Nat} (hs : Safe s) (ht : TokInv cfg 
       constructor
       case inputsIn =>
         intro a b
-        simp only [jSnap, St.setJob, buildVersion, snapAcquire]
+        simp only [jSnap, St.setJob, buildVersionAt, snapAcquire]
         rw [hne _ hcurne]; exact x2 a (by rw [hpc]; rfl)
       case hidden => intro hp; simp [outHidden] at hp
       case hidden' =>
         intro _ f hf v hv
-        simp only [jSnap, St.setJob, buildVersion, snapAcquire]
+        simp only [jSnap, St.setJob, buildVersionAt, snapAcquire]
         rw [hne _ hv]; exact hx7 f (by simpa [outNo] using hf) v
-      case excl => intro a _; simpa [jSnap, St.setJob, buildVersion, snapAcquire] using x1 a (by rw [hpc]; rfl)
+      case excl => intro a _; simpa [jSnap, St.setJob, buildVersionAt, snapAcquire] using x1 a (by rw [hpc]; rfl)
       case triv => intro a _ c; exact x3 a (by rw [hpc]; rfl) c
       case nontriv => intro _ hp; simp at hp
       case allocKind => intro hp; simp at hp
       case merged =>
         intro a b _
-        simpa [jSnap, St.setJob, buildVersion, snapAcquire] using x5 a b (by rw [hpc]; rfl)
+        simpa [jSnap, St.setJob, buildVersionAt, snapAcquire] using x5 a b (by rw [hpc]; rfl)
       case shape => intro _; exact x6 (by rw [hpc]; rfl)
-    · have hjk : (jSnap s j).job k = s.job k := by simp [jSnap, St.setJob, upd, hkj, buildVersion, snapAcquire]
+    · have hjk : (jSnap s j).job k = s.job k := by simp [jSnap, St.setJob, upd, hkj, buildVersionAt, snapAcquire]
       rw [hjk]; exact hother k hk' hkj
-  · apply uniq_update j t3 (by simp [jSnap, St.setJob, buildVersion, snapAcquire])
-    · intro k hk; simp [jSnap, St.setJob, upd, hk, buildVersion, snapAcquire]
+  · apply uniq_update j t3 (by simp [jSnap, St.setJob, buildVersionAt, snapAcquire])
+    · intro k hk; simp [jSnap, St.setJob, upd, hk, buildVersionAt, snapAcquire]
     · intro hk _
       have hk' : (s.job j).kind = .compact := by simpa [jSnap, St.setJob] using hk
       exact ⟨hk', by rw [hpc]; rfl⟩
   · intro f hf
-    have : f ∈ s.flushed := by simpa [jSnap, St.setJob, buildVersion, snapAcquire] using hf
+    have : f ∈ s.flushed := by simpa [jSnap, St.setJob, buildVersionAt, snapAcquire] using hf
     have := t4 f this
-    simp only [jSnap, St.setJob, buildVersion, snapAcquire]; omega
+    have hnfr := (hs.jobs j hj).nfread hpc
+    simp only [jSnap, St.setJob, buildVersionAt, snapAcquire]; omega
   · intro k
-    simp only [jSnap, St.setJob, buildVersion, snapAcquire]
+    simp only [jSnap, St.setJob, buildVersionAt, snapAcquire]
     rw [hne _ hcurne]; exact t5 k
 
 
